@@ -35,6 +35,23 @@ ChainOK(G, C, bars) ==
          THEN LET g == C[(CHOOSE b \in bars : b.death = i).birth] IN \E k \in 1..(P - 1) : bd = ScaleChain(g, k, P)
          ELSE IsZero(bd)
 
+(* Representative cycles logged on histories beyond the bounded model (C08): one support per bar (positions); each  *)
+(* support has no repetition, lies in the dimension of its bar, has the birth cell as its youngest cell and carries *)
+(* a cycle: some assignment of non-zero coefficients to exactly these cells has zero boundary (supports of at most *)
+(* 7 cells over Z_p; over Z_2 the assignment is unique).  The definitional clauses (non-trivial until the death,   *)
+(* boundary at the death) stay with the bounded model MC_Reps.                                                      *)
+RepsOK(G, reps, bars) ==
+  /\ Len(reps) = Cardinality(bars)
+  /\ \A i \in DOMAIN reps :
+       LET r == reps[i]
+           S == {r.cyc[k] + 1 : k \in DOMAIN r.cyc}
+       IN /\ Len(r.cyc) = Cardinality(S)
+          /\ S # {} /\ S \subseteq DOMAIN G
+          /\ \A x \in S : G[x].dim = r.dim
+          /\ Max(S) = r.birth + 1
+          /\ \E b \in bars : b.birth = r.birth + 1 /\ b.dim = r.dim
+          /\ (P = 2 \/ Cardinality(S) <= 7) => \E c \in [S -> 1..(P - 1)] : IsZero(BdChain(G, c, P))
+
 ObsOK(e, G) ==
   LET o == e.obs  bars == Bars(G, P) IN
   /\ o.n = Len(G)
@@ -46,6 +63,7 @@ ObsOK(e, G) ==
   /\ ("R" \in DOMAIN o /\ o.fl # "chain" /\ Len(o.R) = Len(G)) => (Reduced(ColsOf(o.R)) /\ BarsMatchR(ColsOf(o.R), bars))
   /\ ("U" \in DOMAIN o /\ o.fl = "ru") => RUOK(G, ColsOf(o.R), ColsOf(o.U), o.z2)
   /\ ("R" \in DOMAIN o /\ o.fl = "chain" /\ "bars_set" \in DOMAIN o) => ChainOK(G, ColsOf(o.R), bars)
+  /\ ("reps" \in DOMAIN o) => RepsOK(G, o.reps, bars)
 
 Step(e) ==
   \/ /\ e.op = "reset" /\ F' = <<>> /\ act' = [op |-> "reset"]
